@@ -1,6 +1,6 @@
 (* C04 monitor glue: the dump line and Read Responses are judged by AttDbSpec.check_dump / check_read *)
 let c04_tag t = match int_of_nat t with
-  | 1 -> "handles" | 2 -> "index_by_handle" | 3 -> "decl_value" | 4 -> "include_value" | 5 -> "uuids" | _ -> "shape"
+  | 1 -> "handles" | 2 -> "index_by_handle" | 3 -> "decl_value" | 4 -> "include_value" | 5 -> "uuids" | 7 -> "reported_handle" | _ -> "shape"
 let c04_field line k =
   let ws = words line in
   let p = k ^ "=" in
@@ -23,6 +23,12 @@ let () = att_main
     | Op (OpIn (_, [op; lo; hi], n)) when int_of_n op = 10 && int_of_n n >= 23 ->
         (match parse_out o r with
          | OBytes resp -> verdict (check_read c (n_of_int (int_of_n lo + 256 * int_of_n hi)) resp)
+         | OFault -> if String.trim r = "SKIPPED" then None else Some "fault"
+         | _ -> Some "shape")
+    | Op (OpIn (_, (op :: _ as pdu), n)) when List.mem (int_of_n op) [4; 6; 8; 16] && int_of_n n >= 23 ->
+        (* handles reported in discovery responses *)
+        (match parse_out o r with
+         | OBytes resp -> verdict (check_discovery c pdu resp)
          | OFault -> if String.trim r = "SKIPPED" then None else Some "fault"
          | _ -> Some "shape")
     | _ -> None)
